@@ -109,6 +109,8 @@ class LifecycleScenario(Scenario):
                         env.stream_fault(s, 'err500')
                         hit = True
                 env.log('injected', what=action, hit=hit)
+            elif action == 'delete-a':
+                w.delete(KEX, 'ns', 'a')
             elif action == 'create-b':
                 w.create(KEX, 'ns', 'b', {'spec': {'x': 2}})
             else:
@@ -281,6 +283,12 @@ def scenarios(tier: str) -> tuple[list[LifecycleScenario], list[LifecycleScenari
         for what, at in itertools.product(('break:kopfexamples', 'break:customresourcedefinitions', 'break:clusterkopfpeerings'), (1.0, 5.0)):
             scripted_.append(LifecycleScenario(daemon=dm, user=[(at, what), (at + 1.0, 'create-b')], horizon=at + 45.0))
         scripted_.append(LifecycleScenario(daemon=dm, bad_memo=True, user=[(3.0, 'create-b')], horizon=45.0))
+    # the object is deleted shortly before the stop / the failure: its daemon is already being stopped (inside its backoff / slow to leave)
+    # when the operator goes down - it is stopped all the same before the cleanup handlers run and before operator() returns
+    for dm in (dict(reaction='cancel', backoff=4.0, timeout=2.0), dict(reaction='obeys', exit_delay=3.0), dict(reaction='ignore', backoff=3.0, timeout=2.0),
+               dict(reaction='cancel', exit_delay=1.0, backoff=2.0, timeout=3.0)):
+        for trig, gap in itertools.product(('stop', 'cancel', 'break:kopfexamples'), (0.5, 1.0, 2.5)):
+            scripted_.append(LifecycleScenario(daemon=dm, handler='ok', user=[(5.0, 'delete-a'), (5.0 + gap, trig)], horizon=5.0 + gap + 45.0))
     # synchronous (threaded) startup handlers that take 3 s: a stop / cancellation before, during and after their run
     for st in ([['ok~3']], [['ok~3'], ['ok']], [['temp1~3', 'ok~3']]):
         for trig, at in itertools.product(('stop', 'cancel'), (0.0, 1.0, 2.5, 3.0, 5.0, 12.0)):
